@@ -229,7 +229,22 @@ func (Prop) Plan(tier string) []lib.Workload {
 	}
 }
 
+// seenKeys: the first violation of a key within a case is recorded with its witness, the others are counted
+// (a broken check makes hundreds of mutants of one class pass; one witness per class and case is enough).
+// Cases run sequentially inside a worker.
+var seenKeys map[string]int
+
+func violation(c *lib.Case, key, what string, detail func() map[string]any) {
+	seenKeys[key]++
+	if seenKeys[key] == 1 {
+		c.Violation(key, what, detail())
+	} else {
+		c.Count("violations_beyond_first_per_case_and_key", 1)
+	}
+}
+
 func (Prop) RunCase(c *lib.Case) {
+	seenKeys = map[string]int{}
 	switch c.Workload {
 	case "mutants":
 		runMutants(c)
